@@ -29,4 +29,4 @@ For each change k in ({k0}, {k0+1}) deliver in {out}:
   - m<k>_demo_test.go : a self-contained Go test file (external test package or the package's own, your choice) that FAILS with the change applied and PASSES without it. State in the json where it must be placed.
   - m<k>.json : {{"property": "{pid}", "summary": "<what the change does>", "needs": "<what specific input/schedule/sequence is needed for the violation to manifest>", "demo_pkg_dir": "<directory relative to repo root where the demo test file must be copied>", "demo_run": "<go test command, run from repo root, that runs only the demo>"}}
 
-Verify all of this yourself before finishing: (a) with the change applied the whole suite still passes and the demo fails; (b) without the change the demo passes. When done, leave the worktree clean (`git checkout -- .` and delete any files you added, including the demo test). Wrap every test run in `timeout 300` (and `ulimit -v 8000000` for non-race runs) - a broken change may never return or may allocate memory very fast. Reply with a 3-line summary per change.""")
+Verify all of this yourself before finishing: (a) with the change applied the whole suite still passes and the demo fails; (b) without the change the demo passes. When done, leave the worktree clean (`git checkout -- .` and delete any files you added, including the demo test). Never use `git stash` (the stash is shared between worktrees of one repository; use `git diff > file` and `git apply` / `git apply -R` instead). Wrap every test run in `timeout 300` (and `ulimit -v 8000000` for non-race runs) - a broken change may never return or may allocate memory very fast. Reply with a 3-line summary per change.""")
